@@ -150,6 +150,29 @@ def mc_generate(ctx, family, depth, kd):
     return progs, n
 
 
+def run_cnt(ctx, progs, trace, shards=4):
+    lines = lib.read_lines(progs)
+    parts = [lines[i::shards] for i in range(shards)]
+    parts = [p for p in parts if p]
+
+    def one(i):
+        pp, tp = f"{progs}.c{i}", f"{trace}.c{i}"
+        open(pp, "w").write("\n".join(parts[i]) + "\n")
+        inf = lib.run_driver(DRV, ["--programs", pp, "--out", tp])
+        return inf, tp
+    import time
+    t = time.time()
+    with ThreadPoolExecutor(max_workers=len(parts)) as ex:
+        res = list(ex.map(one, range(len(parts))))
+    with open(trace, "w") as out:
+        for _, tp in res:
+            with open(tp) as f:
+                out.write(f.read())
+            os.remove(tp)
+    return {"programs": sum(i.get("programs", 0) for i, _ in res), "events": sum(i.get("events", 0) for i, _ in res),
+            "wall_s": round(time.time() - t, 2)}
+
+
 # --------------------------------------------------------------------------- judge
 def t_cfg(ctx, kd, name="t_blte.cfg"):
     cfg = ctx.path(name)
@@ -170,7 +193,7 @@ def add_counts(ctx, v):
 
 
 def judge_trace(ctx, trace, source, kd, max_events=15000):
-    v = lib.judge(ctx, MODULE_T, t_cfg(ctx, kd), trace, max_events=max_events)
+    v = lib.judge(ctx, MODULE_T, t_cfg(ctx, kd), trace, max_events=max_events, parallel=min(lib.NCPU, 8))
     ctx.stage("judge", source=source, events=v["events"], violations=v.get("nviol", len(v["violations"])),
               deviations={f: v.get("n" + f, 0) for f in ALL_FIDS if v.get("n" + f, 0)}, wall_s=v["wall_s"])
     lib.classify_trace(ctx, v, trace, source, program_of=program_of)
@@ -315,10 +338,10 @@ def run(ctx):
     if ctx.replay:
         return replay(ctx, kd)
     if ctx.quick:
-        plan = [("seq", 3), ("pay", 5)]
+        plan = [("seq", 3), ("pay", 5), ("cnt", 5)]
         nrand = 400
     else:
-        plan = [("seq", 4), ("pay", 5)]
+        plan = [("seq", 4), ("pay", 5), ("cnt", 5)]
         nrand = 5000
     # 1. the design: ideal model satisfies the properties; every listed deviation has its counterexample
     for family, depth in plan:
@@ -335,19 +358,27 @@ def run(ctx):
     for family, depth in plan:
         progs, n = mc_generate(ctx, family, depth, kd)
         trace = ctx.path(f"trace_{family}.ndjson")
-        d = lib.run_sharded(ctx, DRV, progs, trace, shards=8)
+        if family == "cnt":     # few, heavy programs: shard by hand (run_sharded wants 200 programs per shard)
+            d = run_cnt(ctx, progs, trace)
+        else:
+            d = lib.run_sharded(ctx, DRV, progs, trace, shards=8)
         ctx.stage("run", family=family, programs=d.get("programs"), events=d.get("events"), wall_s=d["wall_s"])
         if d.get("programs") != n:
             raise lib.ToolError(f"driver executed {d.get('programs')} of {n} programs")
         _, dn = count_programs(progs)
         total += n
         distinct += dn
-        with open(trace) as f:
-            ls = [x.rstrip("\n") for _, x in zip(range(12000), f)]
-        s, e = lib.run_of_line(ls, min(len(ls) - 50, 3000 if family == "seq" else 9000))
-        ctx.cov["samples"].append({"source": f"MC_Blte family={family}", "trace": [json.loads(x) for x in ls[s:e]]})
-        del ls
-        judge_trace(ctx, trace, f"MC_Blte family={family} depth={depth}", kd)
+        if family == "cnt":     # containers of 255 .. 65 537 chunks: the events are far too large for a sample
+            with open(progs) as f:
+                ctx.cov["samples"].append({"source": "MC_Blte family=cnt", "programs": [json.loads(x) for _, x in zip(range(3), f)]})
+            ctx.cov["chunk_counts_executed"] = COUNTS
+        else:
+            with open(trace) as f:
+                ls = [x.rstrip("\n") for _, x in zip(range(12000), f)]
+            s, e = lib.run_of_line(ls, min(len(ls) - 50, 3000 if family == "seq" else 9000))
+            ctx.cov["samples"].append({"source": f"MC_Blte family={family}", "trace": [json.loads(x) for x in ls[s:e]]})
+            del ls
+        judge_trace(ctx, trace, f"MC_Blte family={family} depth={depth}", kd, max_events=60 if family == "cnt" else 15000)
         if not selftested:
             selftest(ctx, trace, kd)
             selftested = True
@@ -382,7 +413,10 @@ def run(ctx):
     ctx.cov["exhaustive"] = True
     ctx.cov["exhaustive_scope"] = ("family seq: every order of the 25 builder calls of MC_Blte!SeqOps up to the depth (redundant configuration "
                                    "calls pruned); family pay: every canonical configuration prefix x one add call over 6 length classes x 6 "
-                                   "first-byte classes (+ optional second add, both table formats); the random tier is not exhaustive")
+                                   "first-byte classes (+ optional second add, both table formats); family cnt: chunk size 1, every configuration (stored / "
+                                   "zlib) x (plain / Salsa20 / ARC4) x (one add_data call / c-1 bytes + 1 byte) x both table formats for chunk counts "
+                                   "255, 256, 257, 511, 512 and (stored / zlib) x (plain / Salsa20), 24-byte table, for 65535, 65536, 65537; the random "
+                                   "tier is not exhaustive")
     ctx.assumptions += [
         "TLC and the CommunityModules JSON reader are trusted",
         "MD5 digests are computed by the driver with the `md5` crate (cascette-rs uses RustCrypto md-5) over the chunk ranges that "
@@ -390,6 +424,9 @@ def run(ctx):
         "zlib / LZ4 / Salsa20 / ARC4 themselves are exercised (the identity is on real bytes) but not modelled; the decoder is the "
         "library's own (plus a TLA+ decoder for containers of stored chunks)",
         "payloads above ~700 container bytes are compared as (length, MD5) pairs computed by the driver",
+        "containers with more than 1024 chunks are recorded in summary form: the monitor reads magic / header size / format / 24-bit count "
+        "from the first 12 raw bytes and compares counts, the sum of the compressed sizes and one digest pair per table column (as written "
+        "/ as measured by the driver); the 40-byte format and listed deviations are not judged at that size",
         "chunk size 0 is only executed in 5 hand-written programs, each in its own memory-limited driver process; payloads >= 4 GiB "
         "and block indices >= 2^31 are not executed",
     ]
